@@ -17,6 +17,7 @@ import os, sys, json, time, math, hashlib, traceback, collections, contextlib, i
 
 ROOT = os.path.dirname(os.path.dirname(os.path.abspath(__file__)))
 NPROC = int(os.environ.get("VERIF_NPROC", "16"))
+OUT = os.environ.get("VERIF_OUT") or ROOT      # where evidence / run-time replay files go (mutant runs redirect it)
 
 
 class CaseAbort(Exception):
@@ -384,7 +385,7 @@ def load_known():
 def bucket_file(prop, sub_name, bucket):
     h = hashlib.blake2b((sub_name + "|" + bucket).encode(), digest_size=5).hexdigest()
     safe = "".join(ch if ch.isalnum() else "_" for ch in bucket)[:60]
-    d = os.path.join(ROOT, "replays", prop)
+    d = os.path.join(OUT, "replays", prop)
     os.makedirs(d, exist_ok=True)
     return os.path.join(d, "%s__%s__%s.json" % (sub_name, safe, h))
 
@@ -592,8 +593,8 @@ def main(prop, tier="quick", replay_path=None, only=None, do_shrink=True):
         "wall_s": round(wall, 2), "violations": len(violations),
     }
     if only is None:
-        os.makedirs(os.path.join(ROOT, "evidence"), exist_ok=True)
-        with open(os.path.join(ROOT, "evidence", "%s.json" % prop), "w") as f:
+        os.makedirs(os.path.join(OUT, "evidence"), exist_ok=True)
+        with open(os.path.join(OUT, "evidence", "%s.json" % prop), "w") as f:
             json.dump(ev, f, indent=1, default=str)
 
     # --- report -----------------------------------------------------------------------
